@@ -117,7 +117,8 @@ func genC06(ctx *Ctx) {
 					continue // date-times further than 2^40 seconds from the epoch overflow time.Time itself: outside the model
 				}
 				related := a.Type() == b.Type() || (a.Type() == variants.DateTime && (b.Type() == variants.Long || b.Type() == variants.Integer))
-				indexing := op == 21 && (a.Type() == variants.String || a.Type() == variants.Array) && (b.Type() == variants.Integer || b.Type() == variants.Long)
+				indexing := (op == 21 && (a.Type() == variants.String || a.Type() == variants.Array) && (b.Type() == variants.Integer || b.Type() == variants.Long)) ||
+					(op == 20 && a.Type() == variants.Array) || op == 12 || op == 13
 				if !ctx.Thorough && !indexing && !(related && op >= 14 && op <= 19) && (i*131+j*17+op)%7 != int(ctx.Rnd.Int63()%7) {
 					continue
 				}
@@ -359,6 +360,40 @@ func runC06(in sx.SX) (sx.SX, string) {
 			if sx.Text(w) != sx.Text(obs) {
 				fail = fmt.Sprintf("returned %s, the host arithmetic of the type gives %s", sx.Text(obs), sx.Text(w))
 			}
+		}
+	}
+	// unary minus is the host's negation of the type (the sign of zero included)
+	if fail == "" && op == 13 && err == nil {
+		var want *variants.Variant
+		switch a.Type() {
+		case variants.Integer:
+			want = variants.VariantFromInteger(-a.AsInteger())
+		case variants.Long:
+			want = variants.VariantFromLong(-a.AsLong())
+		case variants.Float:
+			want = variants.VariantFromFloat(-a.AsFloat())
+		case variants.Double:
+			want = variants.VariantFromDouble(-a.AsDouble())
+		}
+		if want != nil {
+			if w, _ := resSX(want, nil); sx.Text(w) != sx.Text(obs) {
+				fail = fmt.Sprintf("-a returned %s, the host negation gives %s", sx.Text(obs), sx.Text(w))
+			}
+		}
+	}
+	// membership follows list semantics: In(list, x) iff some element equals x (by the = operator of the same manager)
+	if fail == "" && op == 20 && err == nil && a.Type() == variants.Array && b.Type() != variants.Null && b.Type() != variants.Array {
+		any, clean := false, true
+		for _, e := range a.AsArray() {
+			r, eerr := m.Equal(b, e)
+			if eerr != nil || r == nil || r.Type() != variants.Boolean {
+				clean = false
+				break
+			}
+			any = any || r.AsBoolean()
+		}
+		if clean && (res.Type() != variants.Boolean || res.AsBoolean() != any) {
+			fail = fmt.Sprintf("In(list, x) returned %s although (x = element) is %v for some element", sx.Text(obs), any)
 		}
 	}
 	// numeric operands of different types: the second is converted by the host's own conversion, then the host
